@@ -78,21 +78,31 @@ def simulate_settings(F, adt, new_fn, chain):
                 sv = prov.strip(v, names=set())
                 if sv[0] == 'call' and sv[1].get('name') == 'get_' + f and as_param_path(sv[2][0]) == (1, ()):
                     captured_fields.add(f)
+    def classify(name, a):
+        cls = 'other'
+        sa = prov.strip(a, names={'clone', 'into', 'from', 'to_owned'})
+        if sa[0] == 'call' and sa[1].get('name') == 'get_' + name and as_param_path(sa[2][0]) == (1, ('difficulty', 'difficulty')):
+            cls = 'captured'
+        elif as_param_path(a) == (1, (name,)) and name in captured_fields:
+            cls = 'captured'
+        elif name == 'passed_objects' and any(as_param_path(x) == (1, ('difficulty', 'idx')) for x in prov.walk(a, limit=50)):
+            cls = 'idx'
+        return cls
+
     for name, args, node in reversed(chain):
         if name == 'difficulty' and len(args) == 1:
-            src = 'captured' if as_param_path(args[0]) == (1, ('difficulty', 'difficulty')) else 'other'
+            # the Difficulty handed over may itself be `captured.clone().setter(..)..`: unwind that inner chain first
+            inner = []
+            d = prov.strip(args[0], names={'clone', 'into', 'from', 'to_owned'})
+            while d[0] == 'call' and d[1].get('name') in DIFF_SETTERS and (d[1].get('impl_adt') or '') == 'any::difficulty::Difficulty' and len(d[2]) >= 2:
+                inner.append((d[1]['name'], d[2][1]))
+                d = prov.strip(d[2][0], names={'clone', 'into', 'from', 'to_owned'})
+            src = 'captured' if as_param_path(d) == (1, ('difficulty', 'difficulty')) else 'other'
             state = {'*': src}
+            for nm, a in reversed(inner):
+                state[nm] = classify(nm, a)
         elif name in DIFF_SETTERS and args:
-            a = args[0]
-            cls = 'other'
-            sa = prov.strip(a, names={'clone', 'into', 'from', 'to_owned'})
-            if sa[0] == 'call' and sa[1].get('name') == 'get_' + name and as_param_path(sa[2][0]) == (1, ('difficulty', 'difficulty')):
-                cls = 'captured'
-            elif as_param_path(a) == (1, (name,)) and name in captured_fields:
-                cls = 'captured'
-            elif name == 'passed_objects' and any(as_param_path(x) == (1, ('difficulty', 'idx')) for x in prov.walk(a, limit=50)):
-                cls = 'idx'
-            state[name] = cls
+            state[name] = classify(name, args[0])
     return state
 
 
@@ -133,7 +143,8 @@ def run(ctx):
         P = prov.prov_of(nth)
         rv = P.return_value()
         # private helpers of the calculator itself (e.g. the builder chain split off into its own method) are read through
-        rv = prov.inline_all(F, rv, depth=2, _seen=(nth.path,), only=lambda f_: (f_.get('impl_adt') or '') == adt and f_.get('name') not in ('nth', 'next', 'last', 'new'))
+        rv = prov.inline_all(F, rv, depth=2, _seen=(nth.path,), only=lambda f_: '{closure' not in (f_.get('path') or '') and not f_.get('trait') and f_.get('name') not in ('nth', 'next', 'last', 'new') and
+                             ((f_.get('impl_adt') or '') == adt or not f_.get('impl_adt')))    # the calculator's own len() forwards to self.difficulty.len()
         import combin
         rv = combin.expand(F, rv)          # Option::map(|attrs| ..) instead of `?` + Some(..)
         calcs = [x for x in prov.walk(rv) if x[0] == 'call' and x[1].get('name') == 'calculate'
